@@ -13,7 +13,7 @@
 EXTENDS Resp, TraceBase
 
 VARIABLE en      \* enumeration in progress, or Off
-tvars == <<wire, buf, sent, decoded, out, st, en, l, sid, used, failed>>
+tvars == <<wire, buf, sent, decoded, out, st, big, en, l, sid, used, failed>>
 
 Off == [on |-> FALSE]
 
@@ -26,7 +26,7 @@ Ins(b, i, x) == SubSeq(b, 1, i) \o x \o SubSeq(b, i + 1, Len(b))      \* x inser
 TInit == RInit /\ TBInit /\ en = Off
 Idle == UNCHANGED en /\ en = Off
 
-Fresh == wire' = <<>> /\ buf' = <<>> /\ sent' = <<>> /\ decoded' = <<>> /\ out' = <<>> /\ st' = "idle" /\ en' = Off
+Fresh == wire' = <<>> /\ buf' = <<>> /\ sent' = <<>> /\ decoded' = <<>> /\ out' = <<>> /\ st' = "idle" /\ big' = NoBig /\ en' = Off
 T_Reset == ResetBook /\ Fresh
 T_Fail == FailBook /\ Fresh
 
@@ -43,6 +43,11 @@ T_End == IsEv("End") /\ End /\ Ev.obs.decoded = Len(decoded) /\ Ev.obs.replies =
 T_LiveOpen == IsEv("LiveOpen") /\ Open(Ev.wire, TRUE) /\ Idle /\ Same
 T_LiveSend == IsEv("LiveSend") /\ LiveSend(Ev.chunk) /\ Idle /\ Same
 T_LiveClose == IsEv("LiveClose") /\ LiveClose(Ev.obs.replies) /\ Idle /\ Same
+
+\* ---- C20: a live connection that starts with a big frame (chunks and the reply are logged run-length encoded)
+T_BigOpen == IsEv("BigOpen") /\ BigOpen(Ev.c, Ev.n, Ev.wire) /\ Idle /\ Same
+T_BigSend == IsEv("BigSend") /\ BigSend([pre |-> Ev.pre, run |-> Ev.run, post |-> Ev.post]) /\ Idle /\ Same
+T_BigClose == IsEv("BigClose") /\ BigClose(Ev.obs) /\ Idle /\ Same
 
 \* ---- C21: single decode calls
 ProbeOK(b) == Probe(b, Ev.res, Ev.val, Ev.obs.rest, Ev.obs.peak)
@@ -91,6 +96,7 @@ T_SweepEnd ==
 TNext == \/ T_Fail \/ T_Reset
          \/ T_Open \/ T_Deliver \/ T_Decode \/ T_End
          \/ T_LiveOpen \/ T_LiveSend \/ T_LiveClose
+         \/ T_BigOpen \/ T_BigSend \/ T_BigClose
          \/ T_Probe \/ T_Exhaust \/ T_Case \/ T_ExhaustEnd \/ T_Big
          \/ T_Cmd \/ T_Sweep \/ T_SweepCmd \/ T_SweepEnd
 TSpec == TInit /\ [][TNext]_tvars
